@@ -46,6 +46,7 @@ type bad struct{}
 type SymStr struct {
 	b     []*Term
 	taint string // non-empty: content is an approximation (e.g. formatted symbolic number); inspecting bytes is unsupported
+	dec   *decInfo // set when the string is exactly the base-10 rendering of an integer term
 }
 
 func strBytes(v value) []*Term {
@@ -160,6 +161,12 @@ func strConcat(a, b value) value {
 		if sb, ok := b.(string); ok {
 			return sa + sb
 		}
+	}
+	if strLen(a) == 0 {
+		return b
+	}
+	if strLen(b) == 0 {
+		return a
 	}
 	ta, tb := "", ""
 	if s, ok := a.(*SymStr); ok {
